@@ -1,4 +1,5 @@
 import Esp.Props.C08
+import Esp.Model.Session
 /-!
 # C06 — sessions only with a compatible, correctly named, authenticated device
 
@@ -85,5 +86,52 @@ example : judge false [.hello true true] = none := by decide
 example : judge true [.hello true true, .connect true] = some (.api .invalidAuth) := by decide
 example : judge false [.hello false false] = some (.api .base) := by decide   -- the version error comes first
 example : nameOk (some [100, 101, 118]) [] = true ∧ nameOk (some [100]) [101] = false ∧ nameOk none [101] = true := by decide
+
+/-- **C06 (sessions, plaintext and noise).**  Connecting is accepted iff the major version is supported, every name the device
+gave matches an expected name (the noise ServerHello name when announced — even an empty one; the HelloResponse name when
+non-empty), and — with login — the password was not flagged. -/
+theorem c06_session_iff (noise : Bool) (announced expected : Option (List Nat)) (login : Bool) (major : Nat) (name : List Nat)
+    (invalid : Bool) :
+    judgeSession noise announced expected login major name invalid = .accept ↔
+      (noise = true → serverNameOk expected announced = true) ∧ major ≤ 2 ∧ nameOk expected name = true ∧
+      (login = true → invalid = false) := by
+  unfold judgeSession judge versionOk
+  by_cases hn : noise = true ∧ (!serverNameOk expected announced) = true
+  · rw [if_pos hn]
+    constructor
+    · intro h; cases h
+    · intro h; have := h.1 hn.1; simp [this] at hn
+  · rw [if_neg hn]
+    have hsn : noise = true → serverNameOk expected announced = true := by
+      intro h1; cases h2 : serverNameOk expected announced <;> simp_all
+    by_cases hm : major ≤ 2 <;> cases hk : nameOk expected name <;> cases login <;> cases invalid <;> simp_all
+
+/-- the specific errors, in the order they are checked: the noise ServerHello name first (nothing has been sent yet), then
+version, HelloResponse name, password -/
+theorem c06_session_errors (noise : Bool) (announced expected : Option (List Nat)) (login : Bool) (major : Nat) (name : List Nat)
+    (invalid : Bool) :
+    (noise = true → serverNameOk expected announced = false →
+      judgeSession noise announced expected login major name invalid = .badServerName) ∧
+    ((noise = true → serverNameOk expected announced = true) →
+      (2 < major → judgeSession noise announced expected login major name invalid = .reject (.api .base)) ∧
+      (major ≤ 2 → nameOk expected name = false →
+        judgeSession noise announced expected login major name invalid = .reject (.api .badName)) ∧
+      (major ≤ 2 → nameOk expected name = true → login = true → invalid = true →
+        judgeSession noise announced expected login major name invalid = .reject (.api .invalidAuth))) := by
+  unfold judgeSession judge versionOk
+  constructor
+  · intro h1 h2; simp [h1, h2]
+  · intro hs
+    have hn : ¬(noise = true ∧ (!serverNameOk expected announced) = true) := by
+      intro ⟨h1, h2⟩; simp [hs h1] at h2
+    rw [if_neg hn]
+    refine ⟨fun hm => ?_, fun hm hk => ?_, fun hm hk hl hi => ?_⟩
+    · have : ¬ major ≤ 2 := by omega
+      simp [this]
+    · simp [hm, hk]
+    · simp [hm, hk, hl, hi]
+
+example : serverNameOk (some [1, 2]) none = true ∧ serverNameOk (some [1, 2]) (some []) = false ∧
+    serverNameOk none (some [9]) = true ∧ nameOk (some [1, 2]) [] = true := by decide
 
 end Esp.C06
